@@ -57,7 +57,7 @@ def showRes : Res → String
   | .value s => toHex s
   | .error => "err"
   | .panic => "panic"
-  | .opaque => "opaque"
+  | .unmodelled => "opaque"
   | .outOfFuel => "hang"
 
 def handle (line : String) : String :=
